@@ -112,6 +112,13 @@ def _close(x, y):
     return bool(x != y and abs(x - y) <= 1e-8 + 1e-5 * min(abs(x), abs(y)))
 
 
+def _asfloat(x):
+    try:
+        return float(x)
+    except OverflowError:       # an int beyond the range of a float
+        return math.inf if x > 0 else -math.inf
+
+
 def _falsy(v):
     return v is None or (not _is_nan(v) and not v)
 
@@ -649,10 +656,12 @@ def run_partition(spec):
                     if any(isinstance(x, int) and abs(x) > 2 ** 53 for x in nums) and any(isinstance(x, float) and abs(x) >= 2 ** 53 for x in list(nums) + list(vs)):
                         cls.append('int_beyond_2**53_next_to_float')
                     big = [y for y in vs if type(y) in (int, float) and y == y and abs(y) >= 2 ** 53]
-                    if any(type(x) in (int, float) and x == x and x != y and float(x) == float(y) for x in nums for y in big):
+                    if any(type(x) in (int, float) and x == x and x != y and _asfloat(x) == _asfloat(y) for x in nums for y in big):
                         cls.append('int_beyond_2**53:unequal_but_equal_as_floats')        # where a lookup through float64 (numpy) would match a cell that python equality rejects
                     if any(isinstance(x, float) and x == 0 and math.copysign(1, x) < 0 for x in list(nums) + [y for y in vs if y is not None]):
                         cls.append('negative_zero')
+                if any(type(x) is int and abs(x) >= 2 ** 1024 for x in data[c][:200]) and any(type(y) in (int, float) for y in vs[:200]):
+                    cls.append('int_beyond_float_range')        # class 38: math.isnan / float() / numpy conversion overflow there; python compares such an int with a float exactly
         if reused is not None and not undecided:
             keywords_mattered = [i for i in range(n) if caller.selected_dict_only(i)] != sel
             if form == 'split':
@@ -1040,6 +1049,8 @@ _FLAVOURS = {
     # one number in several raw types: python int / float, numpy int64 / float64 (a float subclass), numpy NaN
     'numpy': st.sampled_from([1, 1.0, ['np', 'float64', 1.0], ['np', 'int64', 1], 2.5, ['np', 'float64', 2.5], ['np', 'int64', 2], 2, ['nan', -1], ['nan', 0], None]),
     'pct': st.sampled_from(['%s', '%d', '100%', 'a', '%(a)s', '%']),
+    # ints beyond the range of a float next to floats, infinities and NaN (class 38)
+    'huge': st.one_of(st.sampled_from([10 ** 400, 10 ** 400 + 1, -(10 ** 400), 2 ** 1024]), st.sampled_from([['inf', 1], 1.5, 0, 1e308, ['inf', -1]]), _NAN),
     # values that differ by less than a tolerance (rtol 1e-5 / atol 1e-8): equal for np.isclose or after rounding, different for python
     'near': st.sampled_from([x for pair in _NEAR_PAIRS for x in pair]),         # strings that are format directives (find_ builds its messages with %)
 }
@@ -1181,7 +1192,7 @@ def _column_cond(draw, cells, n=None, others=None):
         return ['list', [pat[i % len(pat)] for i in range(n)]]
     if mode == 'long':         # 64+ admissible values (a set / vectorised lookup must keep python-equality semantics), some of them in the column
         keep = draw(st.lists(pool, max_size=3)) if present else []
-        keep = [float(v) if isinstance(v, int) and i % 2 == 0 else v for i, v in enumerate(keep)]      # an int cell listed as its float twin
+        keep = [float(v) if isinstance(v, int) and i % 2 == 0 and abs(v) < 2 ** 63 else v for i, v in enumerate(keep)]      # an int cell listed as its float twin
         return ['list', list(range(100, 130)) + keep + [100.0 + i for i in range(30, 70)] + ([None] if draw(st.booleans()) else [])]
     if mode == 'dup':          # the same admissible value listed twice (also as 1 and 1.0)
         vs = draw(st.lists(st.one_of(pool, pool, _VALUE, st.none()), min_size=1, max_size=2))
@@ -1435,7 +1446,7 @@ SUBS = [
                       'row_satisfies_some_not_all_across_containers': 0.03, 'regex_matches_str_of_nonstr_cell': 0.015,
                       'inf_cell': 0.08, 'inf_cell_under_nan_condition': 0.03,
                       # round-4 classes (appendix 11-20)
-                      'cond_is_a_column_list_of_the_table': 0.006, 'cond_is_the_conditioned_column_itself': 0.003, 'list_as_long_as_the_table': 0.015, 'list_as_long_as_the_table:row_aligned_reading_differs': 0.006, 'numpy_scalar': 0.04, 'one_value_in_several_raw_types': 0.025, 'numbers_only_column': 0.08, 'int_beyond_2**53_next_to_float': 0.01, 'int_beyond_2**53:unequal_but_equal_as_floats': 0.007, 'negative_zero': 0.003, 'condition_dict_reused:form=dict': 0.02, 'condition_dict_reused:form=dicts': 0.015, 'condition_dict_reused:form=dict_twice': 0.01, 'condition_dict_reused:other_dicts_mattered': 0.007, 'condition_evaluated_after_rows_were_dropped': 0.035, 'two_conditioned_columns_are_one_list': 0.009, 'columns_share_one_list': 0.04, 'form=dict_twice': 0.035,
+                      'cond_is_a_column_list_of_the_table': 0.006, 'cond_is_the_conditioned_column_itself': 0.003, 'list_as_long_as_the_table': 0.015, 'list_as_long_as_the_table:row_aligned_reading_differs': 0.006, 'numpy_scalar': 0.04, 'one_value_in_several_raw_types': 0.025, 'numbers_only_column': 0.08, 'int_beyond_2**53_next_to_float': 0.01, 'int_beyond_float_range': 0.008, 'int_beyond_2**53:unequal_but_equal_as_floats': 0.007, 'negative_zero': 0.003, 'condition_dict_reused:form=dict': 0.02, 'condition_dict_reused:form=dicts': 0.015, 'condition_dict_reused:form=dict_twice': 0.01, 'condition_dict_reused:other_dicts_mattered': 0.007, 'condition_evaluated_after_rows_were_dropped': 0.035, 'two_conditioned_columns_are_one_list': 0.009, 'columns_share_one_list': 0.04, 'form=dict_twice': 0.035,
                       # round-5/6 classes (appendix 21-29)
                       'near_miss_within_tolerance': 0.008}),
     Sub('predicate', _predicate_case, run_partition, quick=2000, thorough=15000,
